@@ -84,6 +84,17 @@ type Cfg struct {
 	Holders     [][2]string                  `json:"holders"` // [ext name or raw address, value]
 	Denoms      []string                     `json:"denoms"`  // tracked (bridged) denoms
 	ExtTokenMap map[string]string            `json:"ext_token_map"`
+	// PowerScale multiplies every consensus power of the configuration and of Stake steps (0 = 1): stakes beyond 2^32
+	// units with the same proportions; the projection divides by it again (TLC integers are 32 bit)
+	PowerScale int64 `json:"power_scale,omitempty"`
+}
+
+// Scale is the factor applied to consensus powers.
+func (c Cfg) Scale() int64 {
+	if c.PowerScale <= 0 {
+		return 1
+	}
+	return c.PowerScale
 }
 
 func DefaultCfg() Cfg {
@@ -212,7 +223,7 @@ func BuildGenesis(cfg Cfg, n *Names) (app.GenesisState, []abci.ValidatorUpdate) 
 		cons := n.Cons(vc.Name)
 		pkAny, err := codectypes.NewAnyWithValue(cons.PubKey())
 		must(err)
-		tokens := sdk.TokensFromConsensusPower(vc.Power, sdk.DefaultPowerReduction)
+		tokens := sdk.TokensFromConsensusPower(vc.Power*cfg.Scale(), sdk.DefaultPowerReduction)
 		v := stakingtypes.Validator{
 			OperatorAddress:   sdk.ValAddress(a.Addr).String(),
 			ConsensusPubkey:   pkAny,
@@ -229,11 +240,11 @@ func BuildGenesis(cfg Cfg, n *Names) (app.GenesisState, []abci.ValidatorUpdate) 
 		vals = append(vals, v)
 		dels = append(dels, stakingtypes.NewDelegation(a.Addr, sdk.ValAddress(a.Addr), tokens.ToDec()))
 		bonded = bonded.Add(tokens)
-		addAcct(vc.Name, sdk.NewCoins(sdk.NewCoin(BondDenom, sdk.TokensFromConsensusPower(1000, sdk.DefaultPowerReduction))))
+		addAcct(vc.Name, sdk.NewCoins(sdk.NewCoin(BondDenom, sdk.TokensFromConsensusPower(1000*cfg.Scale(), sdk.DefaultPowerReduction))))
 	}
 	addBal(authtypes.NewModuleAddress(stakingtypes.BondedPoolName), sdk.NewCoins(sdk.NewCoin(BondDenom, bonded)))
 	// a delegator account with plenty of stake used by Stake steps
-	addAcct("del", sdk.NewCoins(sdk.NewCoin(BondDenom, sdk.TokensFromConsensusPower(1000000, sdk.DefaultPowerReduction))))
+	addAcct("del", sdk.NewCoins(sdk.NewCoin(BondDenom, sdk.TokensFromConsensusPower(1000000*cfg.Scale(), sdk.DefaultPowerReduction))))
 
 	userNames := make([]string, 0, len(cfg.Users))
 	for u := range cfg.Users {
@@ -446,7 +457,7 @@ type Outcome struct {
 	Log  string `json:"log,omitempty"`
 	Id   uint64 `json:"id,omitempty"`
 	Hash string `json:"hash,omitempty"`
-	Ev   J      `json:"ev,omitempty"` // the bridge event an external-chain action emitted
+	Ev   J      `json:"ev,omitempty"`  // the bridge event an external-chain action emitted
 	Aux  J      `json:"aux,omitempty"` // token list (with store orderings) after a governance change of the token infos
 }
 
